@@ -5,8 +5,11 @@
 package world
 
 import (
+	"context"
 	"sync"
 
+	ipfslog "berty.tech/go-ipfs-log"
+	"berty.tech/go-orbit-db/iface"
 	"berty.tech/go-orbit-db/verifhook"
 )
 
@@ -103,4 +106,19 @@ func ResetHooks() {
 	hooks.byName = map[string]int64{}
 	hooks.fns = map[int]HookFn{}
 	hooks.mu.Unlock()
+}
+
+// LoadMoreFrom calls the store's LoadMoreFrom (which hands the entries to the replicator itself,
+// without passing the point where Sync announces a load) and announces the load to the rest
+// detector the way Sync does.
+func LoadMoreFrom(ctx context.Context, s iface.Store, entries []ipfslog.Entry) {
+	verifhook.Point("store.sync.spawn", s.Replicator(), entries)
+	s.LoadMoreFrom(ctx, uint(len(entries)), entries)
+}
+
+// LoadMoreFromAsync announces the load and runs LoadMoreFrom in its own goroutine (for callers that
+// keep fetches parked).
+func LoadMoreFromAsync(ctx context.Context, s iface.Store, entries []ipfslog.Entry) {
+	verifhook.Point("store.sync.spawn", s.Replicator(), entries)
+	go s.LoadMoreFrom(ctx, uint(len(entries)), entries)
 }
